@@ -9,7 +9,7 @@ ML = "mC20"
 HARNESS = "harness/C20.c"
 SRCS = None
 EXCLUDE = ["term.c"]           # harness/C20.c includes it to read the private held-button field
-EXTRA_LD = ["-Wl,--wrap=gettimeofday"]
+EXTRA_LD = ["-Wl,--wrap=gettimeofday", "-Wl,--wrap=select"]
 LEVEL = "proof"      # evidence category; partial overall, see ASSUMPTIONS[0] and notes
 CASE_TIMEOUT = 0.05
 RULE = ("case = (termtype, byte stream, cut offsets, keys the system's libtermkey finds in the whole stream).  Streams are "
@@ -21,7 +21,9 @@ RULE = ("case = (termtype, byte stream, cut offsets, keys the system's libtermke
         "random streams with random k cuts, and streams longer than libtermkey's 256-byte buffer.  The real terminal is fed the "
         "chunks under a virtual clock (link-time gettimeofday): after each chunk an optional gap below the 50 ms wait time "
         "passes and tickit_term_input_check_timeout_msec is polled, as an event loop does (timed cases: byte-wise and k-cut "
-        "deliveries whose gaps are each < 50 ms but together exceed it); observation = every key / mouse event, the final time-out state and held-button "
+        "deliveries whose gaps are each < 50 ms but together exceed it; wait cases: after a fragment the application calls tickit_term_input_wait_msec / _wait_tv "
+        "with time-outs of its own that expire -- select replaced at link time -- sliced in several ways, together below the wait time); observation = every key / mouse event, "
+        "the virtual time every wait took and the time left to the deadline after it, the final time-out state and held-button "
         "mask.  Non-trivial = at least one event and at least one cut; distinct = distinct (termtype, multiset of key types, "
         "whether a cut falls inside a multi-byte key, number of held buttons seen, long stream).")
 ASSUMPTIONS = ["PARTIAL by nature: Tickit's side is proved for every tokenizer meeting the hypotheses stated next; libtermkey itself is trusted (the property says so)",
@@ -29,7 +31,7 @@ ASSUMPTIONS = ["PARTIAL by nature: Tickit's side is proved for every tokenizer m
                "found in a buffer is found, with the same length, in every extension of the buffer) and that nothing is consumed "
                "without a key; both are also tested here, because the model is fed the keys of the WHOLE stream; a reference tokenizer "
                "written in Coq (UTF-8, CSI, SS3, SGR mouse) is proved to satisfy all the hypotheses (C20_reference_tokenizer)",
-               "no inter-byte time-out is forced between chunks (the property's own condition): every scripted gap is below libtermkey's 50 ms wait time; the clock is virtual; "
+               "no inter-byte time-out is forced between chunks (the property's own condition): every scripted gap, and every group of waits of the caller, is below libtermkey's 50 ms wait time; the clock is virtual; "
                "time the application spends inside its own key / mouse handlers (scripted, up to 200 ms per event) does not count as a gap",
                "libtermkey's buffer holds 256 bytes and no single unfinished sequence fills it",
                "held-button record: button numbers 1..30 (libtermkey reports 1..3 for press/drag)"]
@@ -184,6 +186,29 @@ def gen(tier, seed, info):
             cuts.append(len(st))
         streams.append((tt, st, ["%d+%d" % (c, rnd.choice(GAPS + [0, 0])) for c in cuts], "timed"))
         ntimed += 1
+    # ---- the wait path: after a fragment the application waits (tickit_term_input_wait_msec / _wait_tv) and the
+    #      waits time out -- the caller's time-outs, together below the 50 ms wait time: a pending sequence must
+    #      not be forced by them, however the caller slices its waits
+    nwait = 0
+    WAITS = ["~10~10~10", "~49", "~1~1~1~1~1", "~T0:30000", "~20~T0:20999", "~0~25", "~T0:999"]
+    for tt in TERMS:
+        for it in timed_items:
+            for pre, post in ((b"", b""), (b"a", b"b"), (b"\x1b[A", b"\x1b[1;5C")):
+                st = pre + it + post
+                if len(st) < 2:
+                    continue
+                js = sorted(set([len(pre) + 1, len(pre) + len(it) - 1, len(pre) + (len(it) + 1) // 2]))
+                for j in js:
+                    if not 0 < j < len(st):
+                        continue
+                    for w in WAITS:
+                        streams.append((tt, st, ["%d%s" % (j, w)], "wait"))
+                        nwait += 1
+                # waits after every byte; waits where nothing is pending (whole seconds through the timeval form)
+                streams.append((tt, st, ["%d~15~15" % c for c in range(1, len(st))], "wait"))
+                streams.append((tt, st, ["%d~T2:0~100~T1:500000" % len(st)], "wait"))
+                nwait += 2
+    info["wait_cases"] = nwait
     info["timed_cases"] = ntimed
     info["timed_gaps_us"] = GAPS
     # ---- slow handlers: the application's key / mouse handlers take longer than the wait time
@@ -271,8 +296,9 @@ def classify(case, obs):
     ev = [o for o in obs.split() if o[0] in "km"]
     if not ev or t[2] == "-":
         return None
-    cuts = [int(c.split("+")[0]) for c in t[2].split(",")]
+    cuts = [int(re.split(r"[+~]", c)[0]) for c in t[2].split(",")]
     gaps = [int(c.split("+")[1]) for c in t[2].split(",") if "+" in c]
+    waits = tuple(sorted(set(c[c.index("~"):] for c in t[2].split(",") if "~" in c)))[:2]
     pos, inside, types = 0, False, set()
     for tk in t[3:]:
         if tk[0] != "L":
@@ -285,7 +311,7 @@ def classify(case, obs):
         pos += ln
     nheld = len(set(o.split(":")[1] for o in ev if o[0] == "m" and o[1] in "12"))
     timed = (sum(gaps) > 50000, max(gaps) >= 45000) if any(gaps) else None
-    return (t[0], tuple(sorted(types)), inside, min(len(cuts), 3), nheld, len(t[1]) > 512, timed)
+    return (t[0], tuple(sorted(types)), inside, min(len(cuts), 3), nheld, len(t[1]) > 512, timed, waits)
 
 
 def shrink(case):
